@@ -555,6 +555,7 @@ class Interp {
     } else if (x.ineligible_step) res.ineligible++;
     // passed-set update from the model's accepted handlers (oks) -- uses registration order only
     for (int h : x.oks) mark_passed(h);
+    for (int h : x.oks_optional) mark_passed(h);
     if (o.kind == O_DESTROY_DW) { for (auto& kv : m.E) if (kv.second.is_mon && kv.second.dw == o.at(0) && kv.second.died && kv.second.alive) mark_passed(kv.first); res.dw_events++; }
     if (o.kind == O_CREATE && cres == 0 && x.create_res == 0) { Spec s = Model::spec_of(o); for (int j = 0; j < s.nseq; ++j) registered[{s.seq[j], m.seq[s.seq[j]].gen}].push_back(eid0); }
     if (o.kind == O_WATCH) { for (int j = 0; j < o.at(2); ++j) registered[{o.at(3 + j), m.seq[o.at(3 + j)].gen}].push_back(eid0); res.dw_events++; }
@@ -573,17 +574,27 @@ class Interp {
       for (int e : x.oks) want.insert(exp_text_piece(m.E.at(e)));
       bool genbad = false;
       for (auto& k : real::g_log.oks) { if (k.gen != m.ok_gen) genbad = true; }
-      if (real::g_log.oks.size() != x.oks.size())
-        mismatch(CAT_OK, std::to_string(real::g_log.oks.size()) + " OK reports, want " + std::to_string(x.oks.size()) + (real::g_log.oks.empty() ? "" : " first: " + real::g_log.oks[0].msg));
+      size_t got_n = real::g_log.oks.size();
+      if (got_n < x.oks.size() || got_n > x.oks.size() + x.oks_optional.size())
+        mismatch(CAT_OK, std::to_string(got_n) + " OK reports, want " + std::to_string(x.oks.size()) + (x.oks_optional.empty() ? "" : ".." + std::to_string(x.oks.size() + x.oks_optional.size())) + (real::g_log.oks.empty() ? "" : " first: " + real::g_log.oks[0].msg));
       else {
-        // match texts: every expected piece must be found in a distinct report
-        std::vector<bool> used(real::g_log.oks.size(), false);
+        // match texts: every required piece must be found in a distinct report; the rest must belong to optional ones
+        std::vector<bool> used(got_n, false);
         for (int e : x.oks) {
           std::string piece = exp_text_piece(m.E.at(e));
           bool f = false;
           for (size_t i = 0; i < used.size(); ++i) if (!used[i] && real::g_log.oks[i].msg.find(piece) != std::string::npos) { used[i] = true; f = true; break; }
           if (!f) mismatch(CAT_OK, "no OK report with the text of handler " + std::to_string(e) + " (" + piece + "); got: " + real::g_log.oks[0].msg);
         }
+        std::vector<bool> oused(x.oks_optional.size(), false);
+        for (size_t i = 0; i < used.size(); ++i) {
+          if (used[i]) continue;
+          bool f = false;
+          for (size_t j = 0; j < oused.size() && !f; ++j)
+            if (!oused[j] && real::g_log.oks[i].msg.find(exp_text_piece(m.E.at(x.oks_optional[j]))) != std::string::npos) { oused[j] = true; f = true; }
+          if (!f) mismatch(CAT_OK, "OK report that belongs to no accepted call of this operation: " + real::g_log.oks[i].msg);
+        }
+        if (!x.oks_optional.empty()) res.tolerant++;
       }
       if (genbad) mismatch(CAT_SWAP, "OK report delivered to a replaced OK reporter");
       res.oks += static_cast<int>(x.oks.size());
@@ -656,7 +667,7 @@ class Interp {
       if (!(x.nested[i].res == real::g_log.nested[i].res)) mismatch(CAT_OUTCOME, "nested call outcome " + show(real::g_log.nested[i].res) + " model " + show(x.nested[i].res));
 
     // labels that need post-state
-    if (o.kind == O_RELEASE || (o.kind == O_CALL && !x.oks.empty())) {
+    if (o.kind == O_RELEASE || (o.kind == O_CALL && (!x.oks.empty() || !x.oks_optional.empty()))) {
       for (auto& kv : m.E) if ((!kv.second.alive || kv.second.saturated) && !kv.second.is_mon) released_on.insert({kv.second.s.obj, kv.second.s.func});
     }
     if (o.kind == O_DESTROY_SEQ || o.kind == O_DESTROY_MOCK || o.kind == O_DESTROY_DW || o.kind == O_RELEASE || o.kind == O_UNWATCH) destroyed_dependency = true;
